@@ -1,6 +1,771 @@
-//! C19: not implemented yet.
-use crate::util::Args;
-pub fn main(_a: &Args) {
-    eprintln!("c19: not implemented");
-    std::process::exit(2);
+//! C19: parallel (feature `rayon`) loading and saving vs the sequential build.
+//!
+//! The same source is compiled twice (with / without `--features rayon`, which forwards to
+//! `norad/rayon`).  Sub-modes (first extra argument):
+//!   gen    write generated UFOs into <out>/ufos/<k>/ plus a sidecar <k>.json (name table for the
+//!          model-form dump, post-load operations, generator parameters, classes) and, for the
+//!          UFOs small enough for the Coq model, <k>.case (the Gallina input term)
+//!   run    <tag> <reps> : for every UFO under <out>/ufos: `Font::load` + canonical dump, then
+//!          `Font::save` + listing of the written tree (paths, lengths, hashes), <reps> times;
+//!          the first result goes to <out>/res/<tag>/<k>.txt, every repetition that differs
+//!          from it to <k>.rep<r>.txt; summary.json says how many differed
+//! The driver compares the files of the rayon binary (under several RAYON_NUM_THREADS) with the
+//! sequential binary's, and the model-form part (line `TM`) with the Coq model's prediction.
+use crate::util::*;
+use norad::Font;
+use std::collections::HashMap;
+use std::fmt::Write as _;
+use std::path::{Path, PathBuf};
+
+// ------------------------------------------------------------------ generator
+#[derive(Clone)]
+struct GlyphSpec {
+    key: String,
+    file: String,
+    inner: String,
+    bases: Vec<String>,
+    id: u64,          // unique per file: written as advance width, the "payload"
+    broken: u8,       // 0 = fine
+    dup_of: Option<usize>, // shares the file of glyph #i of the same layer (class dup-paths)
+}
+struct LayerSpec {
+    name: String,
+    dir: String,
+    glyphs: Vec<GlyphSpec>,
+    color: bool,
+    lib: bool,
+}
+struct UfoSpec {
+    layers: Vec<LayerSpec>,
+    poison: Vec<(usize, usize)>, // (layer, glyph): gets a public.objectLibs lib key after load
+    params: String,
+    legacy: bool, // formatVersion 2 with kerning groups named like glyphs / component bases
+}
+
+fn xml_esc(s: &str) -> String {
+    let mut o = String::new();
+    for c in s.chars() {
+        match c {
+            '&' => o.push_str("&amp;"),
+            '<' => o.push_str("&lt;"),
+            '>' => o.push_str("&gt;"),
+            '"' => o.push_str("&quot;"),
+            '\'' => o.push_str("&apos;"),
+            c => o.push(c),
+        }
+    }
+    o
+}
+
+const ALPHA: [&str; 6] = [
+    "abcdefghijklmnopqrstuvwxyz",
+    "ABCDEFGHIJKLMNOPQRSTUVWXYZ",
+    "0123456789._-",
+    "äéßøñçğžœ",
+    "αβγδλπωЖдя",
+    "あア漢字한글",
+];
+
+/// a pool of distinct glyph names: many share prefixes / differ only in case or in one trailing
+/// character, some are long, some need XML escaping, some are outside the BMP
+fn name_pool(rng: &mut Rng, n: usize) -> Vec<String> {
+    let mut seen: HashMap<String, ()> = HashMap::new();
+    let mut out: Vec<String> = vec![];
+    let specials = [
+        ".notdef", "space", "a", "A", "a.alt", "a_b", "aa", "B", "b", "A.sc", "a.", "Aacute", "a b",
+        "f_f_i", "uni0041", "Ä", "ä", "x&y", "p<q", "it's", "\u{1F600}", "\u{10000}a", "zzzz", "_", "-",
+    ];
+    let mut tries = 0;
+    while out.len() < n && tries < n * 50 + 100 {
+        tries += 1;
+        let cand = if out.len() < specials.len() && rng.chance(2, 3) {
+            specials[out.len()].to_string()
+        } else if !out.is_empty() && rng.chance(1, 3) {
+            // derive from an existing name
+            let b = out[rng.below(out.len() as u64) as usize].clone();
+            match rng.below(5) {
+                0 => format!("{}.alt", b),
+                1 => format!("{}{}", b, rng.below(10)),
+                2 => b.to_uppercase(),
+                3 => format!("{}_{}", b, b),
+                _ => {
+                    let mut t = b.clone();
+                    t.pop();
+                    t
+                }
+            }
+        } else {
+            let len = if rng.chance(1, 40) { rng.range(60, 200) } else { rng.range(1, 12) } as usize;
+            let a: Vec<char> = ALPHA[if rng.chance(3, 4) { rng.below(3) } else { rng.below(6) } as usize].chars().collect();
+            (0..len).map(|_| *rng.pick(&a)).collect()
+        };
+        if cand.is_empty() || cand.chars().count() > 240 {
+            continue;
+        }
+        if seen.insert(cand.clone(), ()).is_none() {
+            out.push(cand);
+        }
+    }
+    let mut i = 0;
+    while out.len() < n {
+        let c = format!("glyph{:05}", i);
+        i += 1;
+        if seen.insert(c.clone(), ()).is_none() {
+            out.push(c);
+        }
+    }
+    out
+}
+
+struct Shape {
+    layers: usize,
+    names: usize,
+    density: u64,   // percent of the names present in a non-default layer
+    comp_pool: usize,
+    max_comps: u64,
+    broken: usize,
+    dups: usize,
+    poison: usize,
+    stale: u64,     // percent of glifs whose inner name differs from the key
+    cold_base: bool, // every glyph references one and the same not-yet-interned base first
+    legacy: bool,
+}
+
+fn gen_ufo(rng: &mut Rng, sh: &Shape) -> UfoSpec {
+    let pool = name_pool(rng, sh.names);
+    // component bases: a small sub-pool (heavy reuse) plus a few names of no glyph at all
+    let mut cpool: Vec<String> = (0..sh.comp_pool).map(|_| rng.pick(&pool).clone()).collect();
+    cpool.push("no.such.glyph".to_string());
+    if sh.legacy {
+        // names that reach the interner only as component bases
+        for k in 0..30 {
+            cpool.push(format!("only.base.{}", k));
+        }
+    }
+    if sh.cold_base {
+        cpool.push("cold.base".to_string());
+    }
+    let mut layers = vec![];
+    let mut id = 1u64;
+    let nlayers = if sh.legacy { 1 } else { sh.layers };
+    for li in 0..nlayers {
+        let (lname, dir) = if li == 0 {
+            (if rng.chance(1, 4) { "foreground".to_string() } else { "public.default".to_string() }, "glyphs".to_string())
+        } else {
+            let nm = match rng.below(4) {
+                0 => format!("layer{}", li),
+                1 => format!("Layer {}", li),
+                2 => format!("слой{}", li),
+                _ => pool[rng.below(pool.len() as u64) as usize].clone() + &format!("#{}", li),
+            };
+            (nm, format!("glyphs.l{}", li))
+        };
+        let mut glyphs: Vec<GlyphSpec> = vec![];
+        for (ni, n) in pool.iter().enumerate() {
+            let present = if li == 0 { rng.chance(95, 100) } else { rng.chance(sh.density, 100) };
+            if !present {
+                continue;
+            }
+            let mut bases = vec![];
+            if sh.cold_base {
+                bases.push("cold.base".to_string());
+            }
+            let nc = if sh.max_comps == 0 { 0 } else if rng.chance(1, 3) { 0 } else { rng.below(sh.max_comps + 1) };
+            for _ in 0..nc {
+                bases.push(rng.pick(&cpool).clone());
+            }
+            let inner = if rng.chance(sh.stale, 100) { rng.pick(&pool).clone() } else { n.clone() };
+            let file = match rng.below(3) {
+                0 => format!("g{}.glif", ni),
+                1 => format!("G_{}_.glif", ni),
+                _ => format!("{:04}x.glif", ni),
+            };
+            glyphs.push(GlyphSpec { key: n.clone(), file, inner, bases, id, broken: 0, dup_of: None });
+            id += 1;
+        }
+        layers.push(LayerSpec { name: lname, dir, glyphs, color: rng.chance(1, 3), lib: rng.chance(1, 3) });
+    }
+    // broken glifs
+    for _ in 0..sh.broken {
+        let li = rng.below(layers.len() as u64) as usize;
+        if layers[li].glyphs.is_empty() {
+            continue;
+        }
+        let gi = rng.below(layers[li].glyphs.len() as u64) as usize;
+        layers[li].glyphs[gi].broken = rng.range(1, 8) as u8;
+    }
+    // two names, one file
+    for _ in 0..sh.dups {
+        let li = rng.below(layers.len() as u64) as usize;
+        let n = layers[li].glyphs.len();
+        if n < 2 {
+            continue;
+        }
+        let a = rng.below(n as u64) as usize;
+        let b = rng.below(n as u64) as usize;
+        if a == b || layers[li].glyphs[a].dup_of.is_some() || layers[li].glyphs[b].dup_of.is_some() {
+            continue;
+        }
+        if layers[li].glyphs.iter().any(|g| g.dup_of == Some(a) || g.dup_of == Some(b)) {
+            continue;
+        }
+        layers[li].glyphs[b].dup_of = Some(a);
+        let f = layers[li].glyphs[a].file.clone();
+        layers[li].glyphs[b].file = f;
+    }
+    let mut poison = vec![];
+    for _ in 0..sh.poison {
+        let li = rng.below(layers.len() as u64) as usize;
+        if layers[li].glyphs.is_empty() {
+            continue;
+        }
+        poison.push((li, rng.below(layers[li].glyphs.len() as u64) as usize));
+    }
+    let params = format!(
+        "layers={} names={} density={} comp_pool={} max_comps={} broken={} dups={} poison={} stale={} cold_base={} legacy={}",
+        sh.layers, sh.names, sh.density, sh.comp_pool, sh.max_comps, sh.broken, sh.dups, sh.poison, sh.stale, sh.cold_base, sh.legacy
+    );
+    UfoSpec { layers, poison, params, legacy: sh.legacy }
+}
+
+fn glif_text(rng: &mut Rng, g: &GlyphSpec) -> String {
+    let mut s = String::from("<?xml version=\"1.0\" encoding=\"UTF-8\"?>\n");
+    let fmt = if g.broken == 6 { "7" } else { "2" };
+    // legal surface variation: attribute order, quote character, optional formatMinor
+    let q = if rng.chance(1, 4) { '\'' } else { '"' };
+    let minor = if rng.chance(1, 5) && g.broken != 6 { format!(" formatMinor={}0{}", q, q) } else { String::new() };
+    if rng.chance(1, 2) {
+        let _ = writeln!(s, "<glyph name={}{}{} format={}{}{}{}>", q, xml_esc(&g.inner), q, q, fmt, q, minor);
+    } else {
+        let _ = writeln!(s, "<glyph format={}{}{}{} name={}{}{}>", q, fmt, q, minor, q, xml_esc(&g.inner), q);
+    }
+    if g.broken == 2 {
+        s.push_str("  <advance width=\"abc\"/>\n");
+    } else {
+        let _ = writeln!(s, "  <advance width=\"{}\" height=\"{}\"/>", g.id, rng.below(3) * 500);
+    }
+    for _ in 0..rng.below(3) {
+        let _ = writeln!(s, "  <unicode hex=\"{:04X}\"/>", 0x41 + rng.below(0x3000));
+    }
+    let mut ident = 0;
+    let mut next_id = |rng: &mut Rng| -> String {
+        ident += 1;
+        if rng.chance(1, 2) { format!(" identifier=\"i{}\"", ident) } else { String::new() }
+    };
+    if rng.chance(1, 5) {
+        let _ = writeln!(s, "  <guideline x=\"{}\" name=\"gl\"{}/>", rng.range(-100, 900), next_id(rng));
+    }
+    if g.broken == 3 {
+        s.push_str("  <foo/>\n");
+    }
+    for k in 0..rng.below(3) {
+        let _ = writeln!(s, "  <anchor x=\"{}\" y=\"{}.5\" name=\"top{}\"{}/>", rng.range(-50, 700), rng.range(0, 800), k, next_id(rng));
+    }
+    s.push_str("  <outline>\n");
+    for _ in 0..rng.below(3) {
+        let _ = writeln!(s, "    <contour{}>", next_id(rng));
+        let open = rng.chance(1, 5);
+        let n = rng.range(2, 6);
+        for k in 0..n {
+            let typ = if k == 0 && open { "move" } else { "line" };
+            let _ = writeln!(s, "      <point x=\"{}\" y=\"{}\" type=\"{}\"{}/>", rng.range(-200, 1200), rng.range(-300, 1000), typ,
+                if rng.chance(1, 6) { " smooth=\"yes\"" } else { "" });
+        }
+        if rng.chance(1, 3) {
+            let _ = writeln!(s, "      <point x=\"{}\" y=\"1\"/>\n      <point x=\"2\" y=\"{}\"/>\n      <point x=\"3\" y=\"4\" type=\"curve\"/>", rng.range(0, 99), rng.range(0, 99));
+        }
+        if g.broken == 5 {
+            // an open contour ending in an off-curve point
+            s.push_str("    </contour>\n    <contour>\n      <point x=\"0\" y=\"0\" type=\"move\"/>\n      <point x=\"5\" y=\"5\"/>\n");
+        }
+        s.push_str("    </contour>\n");
+    }
+    if g.broken == 5 {
+        s.push_str("    <contour>\n      <point x=\"0\" y=\"0\" type=\"move\"/>\n      <point x=\"5\" y=\"5\"/>\n    </contour>\n");
+    }
+    for (k, b) in g.bases.iter().enumerate() {
+        let base_first = rng.chance(1, 2);
+        s.push_str("    <component");
+        if base_first {
+            let _ = write!(s, " base=\"{}\"", xml_esc(b));
+        }
+        if rng.chance(1, 2) {
+            let _ = write!(s, " xOffset=\"{}\" yOffset=\"{}\"", rng.range(-300, 300), k);
+        }
+        if rng.chance(1, 4) {
+            let _ = write!(s, " xScale=\"0.5\" yScale=\"{}\"", rng.range(1, 3));
+        }
+        s.push_str(&next_id(rng));
+        if !base_first {
+            let _ = write!(s, " base='{}'", xml_esc(b));
+        }
+        s.push_str("/>\n");
+    }
+    if g.broken == 4 {
+        s.push_str("    <component base=\"\"/>\n");
+    }
+    if g.broken == 7 {
+        s.push_str("    <component base=\"a\" identifier=\"dupid\"/>\n    <component base=\"a\" identifier=\"dupid\"/>\n");
+    }
+    s.push_str("  </outline>\n");
+    if rng.chance(1, 3) {
+        let _ = writeln!(s, "  <lib>\n    <dict>\n      <key>com.verif.k</key>\n      <integer>{}</integer>\n      <key>b</key>\n      <string>v{}</string>\n    </dict>\n  </lib>", g.id, rng.below(100));
+    }
+    if rng.chance(1, 5) {
+        let _ = writeln!(s, "  <note>note {}</note>", g.id);
+    }
+    s.push_str("</glyph>\n");
+    if g.broken == 1 {
+        let cut = s.len() / 2;
+        let mut c = cut;
+        while !s.is_char_boundary(c) {
+            c -= 1;
+        }
+        s.truncate(c);
+    }
+    s
+}
+
+const PLIST_HEAD: &str = "<?xml version=\"1.0\" encoding=\"UTF-8\"?>\n<!DOCTYPE plist PUBLIC \"-//Apple//DTD PLIST 1.0//EN\" \"http://www.apple.com/DTDs/PropertyList-1.0.dtd\">\n<plist version=\"1.0\">\n";
+
+fn write_ufo(rng: &mut Rng, u: &UfoSpec, dir: &Path) {
+    std::fs::create_dir_all(dir).unwrap();
+    let ver = if u.legacy { 2 } else { 3 };
+    write_file(&dir.join("metainfo.plist"), &format!("{}<dict>\n<key>creator</key>\n<string>org.verif.c19</string>\n<key>formatVersion</key>\n<integer>{}</integer>\n</dict>\n</plist>\n", PLIST_HEAD, ver));
+    write_file(&dir.join("fontinfo.plist"), &format!("{}<dict>\n<key>familyName</key>\n<string>C19 &amp; co</string>\n<key>unitsPerEm</key>\n<integer>1000</integer>\n<key>ascender</key>\n<real>750.5</real>\n</dict>\n</plist>\n", PLIST_HEAD));
+    write_file(&dir.join("lib.plist"), &format!("{}<dict>\n<key>com.verif.seed</key>\n<integer>{}</integer>\n</dict>\n</plist>\n", PLIST_HEAD, rng.below(1000)));
+    // groups / kerning: group names that coincide with glyph names and component bases make the
+    // interner's content observable through the legacy kerning upconversion
+    let all: Vec<&GlyphSpec> = u.layers.iter().flat_map(|l| l.glyphs.iter()).collect();
+    // group members: pairwise different glyph names (a glyph may sit in one kern1 group only)
+    let mut distinct: Vec<String> = vec![];
+    for g in &all {
+        if !distinct.contains(&g.key) && distinct.len() < 16 {
+            distinct.push(g.key.clone());
+        }
+    }
+    if !all.is_empty() {
+        let mut gs = String::new();
+        let mut ks = String::new();
+        let mut used: HashMap<String, ()> = HashMap::new();
+        let mut firsts = vec![];
+        if u.legacy {
+            // one group per name the interner should hold after loading (keys, glif-internal names,
+            // component bases) plus a few it should not hold: whether upconversion renames the
+            // group tells whether the name is in the interner
+            let mut names: Vec<String> = vec![];
+            for g in &all {
+                for n in std::iter::once(&g.key).chain(std::iter::once(&g.inner)).chain(g.bases.iter()) {
+                    if used.insert(n.clone(), ()).is_none() && names.len() < 250 {
+                        names.push(n.clone());
+                    }
+                }
+            }
+            for k in 0..5 {
+                names.push(format!("@grp{}", k));
+            }
+            for (k, gname) in names.iter().enumerate() {
+                let _ = writeln!(gs, "<key>{}</key>\n<array>\n<string>{}</string>\n</array>", xml_esc(gname), xml_esc(&distinct[k % distinct.len()]));
+                firsts.push(gname.clone());
+            }
+        } else {
+            for k in 0..3usize.min(distinct.len()) {
+                let gname = format!("public.kern1.g{}", k);
+                let _ = writeln!(gs, "<key>{}</key>\n<array>\n<string>{}</string>\n</array>", xml_esc(&gname), xml_esc(&distinct[k]));
+                firsts.push(gname);
+            }
+        }
+        for (k, f) in firsts.iter().enumerate() {
+            let other = &all[rng.below(all.len() as u64) as usize].key;
+            if u.legacy && k % 2 == 1 {
+                // the group on the second side
+                let _ = writeln!(ks, "<key>{}</key>\n<dict>\n<key>{}</key>\n<integer>{}</integer>\n</dict>", xml_esc(&format!("k1st{}", k)), xml_esc(f), rng.range(-80, 80));
+            } else {
+                let _ = writeln!(ks, "<key>{}</key>\n<dict>\n<key>{}</key>\n<integer>{}</integer>\n</dict>", xml_esc(f), xml_esc(other), rng.range(-80, 80));
+            }
+        }
+        write_file(&dir.join("groups.plist"), &format!("{}<dict>\n{}</dict>\n</plist>\n", PLIST_HEAD, gs));
+        write_file(&dir.join("kerning.plist"), &format!("{}<dict>\n{}</dict>\n</plist>\n", PLIST_HEAD, ks));
+    }
+    if !u.legacy {
+        let mut lc = String::new();
+        for l in &u.layers {
+            let _ = writeln!(lc, "<array>\n<string>{}</string>\n<string>{}</string>\n</array>", xml_esc(&l.name), xml_esc(&l.dir));
+        }
+        write_file(&dir.join("layercontents.plist"), &format!("{}<array>\n{}</array>\n</plist>\n", PLIST_HEAD, lc));
+    }
+    for l in &u.layers {
+        let ld = dir.join(&l.dir);
+        std::fs::create_dir_all(&ld).unwrap();
+        // contents.plist in a shuffled order (the reader sorts)
+        let mut order: Vec<usize> = (0..l.glyphs.len()).collect();
+        for i in (1..order.len()).rev() {
+            let j = rng.below(i as u64 + 1) as usize;
+            order.swap(i, j);
+        }
+        let mut c = String::new();
+        for &i in &order {
+            let g = &l.glyphs[i];
+            let _ = writeln!(c, "<key>{}</key>\n<string>{}</string>", xml_esc(&g.key), xml_esc(&g.file));
+        }
+        write_file(&ld.join("contents.plist"), &format!("{}<dict>\n{}</dict>\n</plist>\n", PLIST_HEAD, c));
+        if !u.legacy && (l.color || l.lib) {
+            let mut li = String::new();
+            if l.color {
+                li.push_str("<key>color</key>\n<string>1,0.75,0,0.7</string>\n");
+            }
+            if l.lib {
+                li.push_str("<key>lib</key>\n<dict>\n<key>com.verif.layer</key>\n<string>x</string>\n</dict>\n");
+            }
+            write_file(&ld.join("layerinfo.plist"), &format!("{}<dict>\n{}</dict>\n</plist>\n", PLIST_HEAD, li));
+        }
+        for g in &l.glyphs {
+            if g.dup_of.is_some() || g.broken == 8 {
+                continue; // shares another glyph's file / file missing
+            }
+            write_file(&ld.join(&g.file), &glif_text(rng, g));
+        }
+    }
+}
+
+fn jstr(s: &str) -> String {
+    serde_json::to_string(s).unwrap()
+}
+
+/// Gallina input term of the Coq model: (table, layers, seed); names are indices into the table.
+fn case_term(u: &UfoSpec, table: &[String], index: &HashMap<String, usize>, seed: u64) -> String {
+    let ix = |s: &str| -> u64 { index[s] as u64 };
+    let mut ls = vec![];
+    for l in &u.layers {
+        // tasks in the order of `contents` (a BTreeMap): sorted by key, bytewise
+        let mut gl: Vec<&GlyphSpec> = l.glyphs.iter().collect();
+        gl.sort_by(|a, b| a.key.as_bytes().cmp(b.key.as_bytes()));
+        let mut ts = vec![];
+        for g in gl {
+            // what the file determines: for a dup-path entry the file of the other glyph
+            let src = match g.dup_of {
+                Some(i) => &l.glyphs[i],
+                None => g,
+            };
+            let reqs: Vec<u64> = std::iter::once(ix(&src.inner)).chain(src.bases.iter().map(|b| ix(b))).collect();
+            let out = if src.broken != 0 { "None".to_string() } else { format!("(Some {})", src.id) };
+            let reqs = if src.broken != 0 { vec![] } else { reqs };
+            ts.push(format!("({},{},{})", ix(&g.key), g_nlist(reqs), out));
+        }
+        ls.push(format!("({},{})", ix(&l.name), g_list(&ts)));
+    }
+    let tb: Vec<String> = table.iter().map(|s| g_str(s)).collect();
+    format!("({},{},{})", g_list(&tb), g_list(&ls), seed % 1_000_000_007)
+}
+
+fn shapes(rng: &mut Rng, thorough: bool) -> Vec<Shape> {
+    let mut v = vec![];
+    let mult = if thorough { 4 } else { 1 };
+    // small ones (also run through the Coq model)
+    for k in 0..(24 * mult) {
+        v.push(Shape {
+            layers: rng.range(1, 4) as usize,
+            names: if k % 3 == 2 { rng.range(40, 120) as usize } else { rng.range(2, 40) as usize },
+            density: rng.range(20, 100) as u64,
+            comp_pool: rng.range(1, 5) as usize,
+            max_comps: rng.range(0, 5) as u64,
+            broken: if k % 4 == 3 { rng.range(1, 3) as usize } else { 0 },
+            dups: 0,
+            poison: if k % 8 == 5 { 1 } else { 0 },
+            stale: if k % 2 == 0 { 30 } else { 3 },
+            cold_base: k % 3 == 0,
+            legacy: k % 8 == 6,
+        });
+    }
+    // medium
+    for k in 0..(8 * mult) {
+        v.push(Shape {
+            layers: rng.range(2, 5) as usize,
+            names: rng.range(80, 300) as usize,
+            density: rng.range(30, 100) as u64,
+            comp_pool: rng.range(2, 8) as usize,
+            max_comps: rng.range(1, 6) as u64,
+            broken: if k % 4 == 2 { rng.range(1, 4) as usize } else { 0 },
+            dups: 0,
+            poison: if k % 8 == 7 { 2 } else { 0 },
+            stale: 10,
+            cold_base: k % 2 == 0,
+            legacy: k % 4 == 1,
+        });
+    }
+    // large
+    for k in 0..(2 * mult) {
+        v.push(Shape {
+            layers: 4,
+            names: 500 + 100 * (k % 3),
+            density: 90,
+            comp_pool: 6,
+            max_comps: 6,
+            broken: 0,
+            dups: 0,
+            poison: 0,
+            stale: 5,
+            cold_base: true,
+            legacy: false,
+        });
+    }
+    // class dup-paths: two keys of `contents` naming one file
+    for k in 0..(4 * mult) {
+        v.push(Shape {
+            layers: rng.range(1, 3) as usize,
+            names: if k % 2 == 0 { rng.range(4, 30) as usize } else { rng.range(100, 300) as usize },
+            density: 80,
+            comp_pool: 3,
+            max_comps: 3,
+            broken: 0,
+            dups: rng.range(1, 4) as usize,
+            poison: 0,
+            stale: 5,
+            cold_base: false,
+            legacy: false,
+        });
+    }
+    v
+}
+
+fn gen(a: &Args) {
+    let mut rng = Rng::new(a.seed ^ 0xC19);
+    let root = a.out.join("ufos");
+    std::fs::create_dir_all(&root).unwrap();
+    let shapes = shapes(&mut rng, a.thorough());
+    let mut index_lines = vec![];
+    for (k, sh) in shapes.iter().enumerate() {
+        let mut r = rng.fork();
+        let u = gen_ufo(&mut r, sh);
+        let dir = root.join(format!("{:03}", k));
+        write_ufo(&mut r, &u, &dir);
+        write_sidecar(&u, &root, k, a.seed);
+        let ng: usize = u.layers.iter().map(|l| l.glyphs.len()).sum();
+        index_lines.push(format!(
+            "{{\"k\":{},\"glyphs\":{},\"layers\":{},\"params\":{}}}",
+            k, ng, u.layers.len(), jstr(&u.params)
+        ));
+    }
+    write_file(&a.out.join("gen.json"), &format!("[{}]", index_lines.join(",\n")));
+}
+
+fn write_sidecar(u: &UfoSpec, root: &Path, k: usize, seed: u64) {
+    // name table: every string that may appear as a layer / glyph / component name
+    let mut table: Vec<String> = vec![];
+    let mut index: HashMap<String, usize> = HashMap::new();
+    let mut add = |s: &str, table: &mut Vec<String>| {
+        if !index.contains_key(s) {
+            index.insert(s.to_string(), table.len());
+            table.push(s.to_string());
+        }
+    };
+    for l in &u.layers {
+        add(&l.name, &mut table);
+        for g in &l.glyphs {
+            add(&g.key, &mut table);
+            add(&g.inner, &mut table);
+            for b in &g.bases {
+                add(b, &mut table);
+            }
+        }
+    }
+    let mut poison = vec![];
+    for (li, gi) in &u.poison {
+        poison.push(format!("[{},{}]", jstr(&u.layers[*li].name), jstr(&u.layers[*li].glyphs[*gi].key)));
+    }
+    let tb: Vec<String> = table.iter().map(|s| jstr(s)).collect();
+    let ng: usize = u.layers.iter().map(|l| l.glyphs.len()).sum();
+    let nbroken: usize = u.layers.iter().map(|l| l.glyphs.iter().filter(|g| g.broken != 0).count()).sum();
+    let ndup: usize = u.layers.iter().map(|l| l.glyphs.iter().filter(|g| g.dup_of.is_some()).count()).sum();
+    write_file(
+        &root.join(format!("{:03}.json", k)),
+        &format!(
+            "{{\"table\":[{}],\"poison\":[{}],\"params\":{},\"seed\":{},\"glyphs\":{},\"broken\":{},\"dup_entries\":{},\"legacy\":{}}}",
+            tb.join(","), poison.join(","), jstr(&u.params), seed, ng, nbroken, ndup, u.legacy
+        ),
+    );
+    let maxl = u.layers.iter().map(|l| l.glyphs.len()).max().unwrap_or(0);
+    if maxl <= 130 && !u.legacy {
+        write_file(&root.join(format!("{:03}.case", k)), &case_term(u, &table, &index, seed.wrapping_mul(1000).wrapping_add(k as u64)));
+    }
+}
+
+// ------------------------------------------------------------------ running the implementation
+fn fnv(data: &[u8]) -> u64 {
+    let mut h: u64 = 0xcbf29ce484222325;
+    for b in data {
+        h ^= *b as u64;
+        h = h.wrapping_mul(0x100000001b3);
+    }
+    h
+}
+
+fn walk(root: &Path, rel: &Path, out: &mut Vec<(String, u64, u64)>) {
+    let mut ents: Vec<PathBuf> = match std::fs::read_dir(root.join(rel)) {
+        Ok(rd) => rd.filter_map(|e| e.ok()).map(|e| e.path()).collect(),
+        Err(_) => return,
+    };
+    ents.sort();
+    for p in ents {
+        let r = rel.join(p.file_name().unwrap());
+        if p.is_dir() {
+            out.push((format!("{}/", r.display()), 0, 0));
+            walk(root, &r, out);
+        } else {
+            let data = std::fs::read(&p).unwrap_or_default();
+            out.push((format!("{}", r.display()), data.len() as u64, fnv(&data)));
+        }
+    }
+}
+
+fn err_variant(dbg: &str) -> String {
+    dbg.chars().take_while(|c| c.is_alphanumeric() || *c == '_').collect()
+}
+
+/// everything observable of one load + save of the UFO at `dir`
+fn observe(dir: &Path, side: &serde_json::Value, save_to: &Path) -> String {
+    let mut o = String::new();
+    let index: HashMap<String, u64> = side["table"]
+        .as_array()
+        .map(|t| t.iter().enumerate().map(|(i, s)| (s.as_str().unwrap_or("").to_string(), i as u64)).collect())
+        .unwrap_or_default();
+    let ix = |s: &str| -> u64 { *index.get(s).unwrap_or(&999_999_999) };
+    let loaded = catch(|| Font::load(dir));
+    let mut font = match loaded {
+        Err(p) => {
+            let _ = writeln!(o, "LOAD panic\nERRINFO {}", p);
+            return o;
+        }
+        Ok(Err(e)) => {
+            let d = format!("{:?}", e);
+            let _ = writeln!(o, "LOAD err\nTM L_ []\nERRINFO {} {}", err_variant(&d), d.replace('\n', " "));
+            return o;
+        }
+        Ok(Ok(f)) => f,
+    };
+    o.push_str("LOAD ok\n");
+    // model-form dump
+    let mut lt = vec![];
+    for l in font.layers.iter() {
+        let mut gt = vec![];
+        for g in l.iter() {
+            let selfkey = match l.get_glyph(g.name()) {
+                Some(h) if std::ptr::eq(h, g) => ix(g.name()),
+                _ => 999_999_998,
+            };
+            let bases: Vec<Tm> = g.components.iter().map(|c| Tm::N(ix(&c.base))).collect();
+            let payload = if g.width >= 0.0 && g.width < 1e15 { g.width as u64 } else { 999_999_997 };
+            gt.push(Tm::L(vec![Tm::N(selfkey), Tm::N(ix(g.name())), Tm::L(bases), Tm::N(payload)]));
+        }
+        lt.push(Tm::L(vec![Tm::N(ix(l.name())), Tm::L(gt)]));
+    }
+    let _ = writeln!(o, "TM {}", Tm::L(vec![Tm::L(lt)]).to_string());
+    // full dump
+    let _ = writeln!(o, "META {:?}", font.meta);
+    let _ = writeln!(o, "INFO {:?}", font.font_info);
+    let _ = writeln!(o, "LIB {:?}", font.lib);
+    let _ = writeln!(o, "GROUPS {:?}", font.groups);
+    let _ = writeln!(o, "KERNING {:?}", font.kerning);
+    let _ = writeln!(o, "FEATURES {:?}", font.features);
+    for l in font.layers.iter() {
+        let _ = writeln!(o, "LAYER {:?} {:?} {:?} {:?} n={}", l.name(), l.path(), l.color, l.lib, l.len());
+        for g in l.iter() {
+            let _ = writeln!(o, " G {:?}", g);
+        }
+    }
+    // post-load operations
+    if let Some(ps) = side["poison"].as_array() {
+        for p in ps {
+            let (ln, gn) = (p[0].as_str().unwrap_or(""), p[1].as_str().unwrap_or(""));
+            if let Some(l) = font.layers.get_mut(ln) {
+                if let Some(g) = l.get_glyph_mut(gn) {
+                    g.lib.insert("public.objectLibs".into(), plist::Value::Dictionary(Default::default()));
+                }
+            }
+        }
+    }
+    let _ = std::fs::remove_dir_all(save_to);
+    match catch(|| font.save(save_to)) {
+        Err(p) => {
+            let _ = writeln!(o, "SAVE panic\nERRINFO {}", p);
+        }
+        Ok(Err(e)) => {
+            let d = format!("{:?}", e);
+            let _ = writeln!(o, "SAVE err\nERRINFO {} {}", err_variant(&d), d.replace('\n', " "));
+        }
+        Ok(Ok(())) => {
+            o.push_str("SAVE ok\n");
+            let mut t = vec![];
+            walk(save_to, Path::new(""), &mut t);
+            for (p, n, h) in t {
+                let _ = writeln!(o, "TREE {} {:016x} {}", n, h, p);
+            }
+        }
+    }
+    let _ = std::fs::remove_dir_all(save_to);
+    o
+}
+
+/// the part of an observation that must not depend on the build / thread count / schedule
+fn comparable(s: &str) -> String {
+    s.lines().filter(|l| !l.starts_with("ERRINFO")).collect::<Vec<_>>().join("\n")
+}
+
+fn run(a: &Args, tag: &str, reps: usize) {
+    let root = a.out.join("ufos");
+    let res = a.out.join("res").join(tag);
+    std::fs::create_dir_all(&res).unwrap();
+    let tmp = a.out.join("tmp").join(tag);
+    std::fs::create_dir_all(&tmp).unwrap();
+    let mut ks: Vec<String> = std::fs::read_dir(&root)
+        .unwrap()
+        .filter_map(|e| e.ok())
+        .filter(|e| e.path().is_dir())
+        .map(|e| e.file_name().to_string_lossy().to_string())
+        .collect();
+    ks.sort();
+    let mut lines = vec![];
+    for k in &ks {
+        let side: serde_json::Value = std::fs::read_to_string(root.join(format!("{}.json", k)))
+            .ok()
+            .and_then(|s| serde_json::from_str(&s).ok())
+            .unwrap_or(serde_json::Value::Null);
+        let t0 = std::time::Instant::now();
+        let first = observe(&root.join(k), &side, &tmp.join("save"));
+        write_file(&res.join(format!("{}.txt", k)), &first);
+        let cf = comparable(&first);
+        let mut differing = 0;
+        for r in 1..reps {
+            let again = observe(&root.join(k), &side, &tmp.join("save"));
+            if comparable(&again) != cf {
+                differing += 1;
+                if differing <= 3 {
+                    write_file(&res.join(format!("{}.rep{}.txt", k, r)), &again);
+                }
+            }
+        }
+        lines.push(format!("{{\"k\":{},\"reps\":{},\"differing\":{},\"ms\":{}}}", jstr(k), reps, differing, t0.elapsed().as_millis()));
+    }
+    write_file(
+        &res.join("summary.json"),
+        &format!("{{\"rayon\":{},\"threads\":{},\"ufos\":[{}]}}", cfg!(feature = "rayon"),
+            jstr(&std::env::var("RAYON_NUM_THREADS").unwrap_or_default()), lines.join(",\n")),
+    );
+    let _ = std::fs::remove_dir_all(&tmp);
+}
+
+pub fn main(a: &Args) {
+    match a.extra.first().map(|s| s.as_str()) {
+        Some("gen") => gen(a),
+        Some("run") => {
+            let tag = a.extra.get(1).cloned().unwrap_or_else(|| "seq".into());
+            let reps = a.extra.get(2).and_then(|s| s.parse().ok()).unwrap_or(1);
+            run(a, &tag, reps)
+        }
+        Some("features") => println!("rayon={}", cfg!(feature = "rayon")),
+        _ => {
+            eprintln!("usage: c19 gen|run <tag> <reps> --out DIR [--seed N --tier T]");
+            std::process::exit(2);
+        }
+    }
 }
